@@ -297,6 +297,7 @@ fn product(out: &mut Out) {
 					for ns in ["named", "official"] {
 						out.op("apply", &[d.to_sexp(), t.clone(), Sexp::str(ns)]);
 						out.op("oracle-apply-exact", &[d.to_sexp(), t.clone(), Sexp::str(ns)]);
+						out.op("oracle-apply-wf", &[d.to_sexp(), t.clone(), Sexp::str(ns)]);
 					}
 					if !present {
 						// ancestors Add so that the node under test is reached on an absent key
@@ -341,12 +342,14 @@ fn gen(r: &mut Rng, tier: Tier, out: &mut Out) {
 		let args = [d.to_sexp(), t.to_sexp(), Sexp::str(&ns_name)];
 		out.op("apply", &args);
 		out.op("oracle-apply-exact", &args);
+		out.op("oracle-apply-read-back", &args);
+		out.op("oracle-apply-wf", &args);
 	}
 
 	// 2. pairs from a common ancestor
 	for i in 0..400 * scale {
 		let mut cfg = MapCfg::basic(2);
-		cfg.max_classes = r.range(0, 4);
+		cfg.max_classes = if r.chance(1, 25) { 0 } else { r.range(1, 4) };
 		cfg.nest_depth = 0;
 		let absent = *r.pick(&[0, 0, 0, 0, 3, 10]);
 		cfg.absent_pct = absent;
@@ -365,10 +368,13 @@ fn gen(r: &mut Rng, tier: Tier, out: &mut Out) {
 		};
 		let mut b = b;
 		if r.chance(1, 40) { b.ns[1] = "other".into(); }
+		let mut a = a;
+		if r.chance(1, 40) { a.ns[1] = a.ns[0].clone(); b.ns[1] = b.ns[0].clone(); out.stats.hit("pair:equal-namespace-names"); }
 		out.stats.hit(&format!("pair:classes={}/{}", a.classes.len().min(6), b.classes.len().min(6)));
 		out.stats.hit(&format!("pair:param-src={}", cfg.param_src_names));
 		let args = [a.to_sexp(), b.to_sexp()];
 		if i % 2 == 0 { out.op("diff", &args); }
+		out.op("oracle-diff-total", &args);
 		out.op("oracle-diff-apply", &args);
 		out.op("oracle-diff-apply-text", &args);
 	}
@@ -545,7 +551,7 @@ fn spec_apply(d: &Sexp, t: &Sexp, ns_name: &Sexp) -> Result<Sexp, ()> {
 
 /// every entry is stored under the key its first name (+ descriptor / index) gives
 fn wf(m: &Sexp) -> bool {
-	items(&items(m)[2]).iter().all(|c| {
+	keys_unique(m) && items(&items(m)[2]).iter().all(|c| {
 		let c = items(c);
 		items(&c[1])[0] == some(&c[0])
 			&& items(&c[3]).iter().all(|f| { let f = items(f); f[2] == f[1] && items(&f[3])[0] == some(&f[0]) })
@@ -573,8 +579,10 @@ fn param_srcless(a: &Sexp, b: &Sexp) -> bool {
 }
 
 fn cps(s: &Sexp) -> Vec<u32> { s.as_cps().unwrap_or_default() }
-fn plain_cell(s: &[u32]) -> bool { s.iter().all(|c| ![9, 10, 13].contains(c)) }
-fn plain_doc(s: &[u32]) -> bool { !s.is_empty() && s.iter().all(|c| ![9, 13].contains(c)) && !s.windows(2).any(|w| w == [92, 110]) }
+/// a Unicode scalar value (the text goes through a UTF-8 file)
+fn scalar(c: u32) -> bool { c < 0xD800 || (0xDFFF < c && c < 0x110000) }
+fn plain_cell(s: &[u32]) -> bool { s.iter().all(|c| ![9, 10, 13].contains(c) && scalar(*c)) }
+fn plain_doc(s: &[u32]) -> bool { !s.is_empty() && s.iter().all(|c| ![9, 13].contains(c) && scalar(*c)) && !s.windows(2).any(|w| w == [92, 110]) }
 fn valid_unq(s: &[u32]) -> bool { !s.is_empty() && s.iter().all(|c| !['.' as u32, ';' as u32, '[' as u32, '/' as u32].contains(c)) }
 fn valid_method(s: &[u32]) -> bool {
 	let is = |t: &str| s.iter().copied().eq(t.chars().map(|c| c as u32));
@@ -584,10 +592,27 @@ fn valid_class(s: &[u32]) -> bool { s.first() != Some(&('[' as u32)) && s.split(
 fn action_all(a: &Sexp, p: &dyn Fn(&[u32]) -> bool) -> bool {
 	match act(a) { Act::None => true, Act::Add(b) => p(&cps(b)), Act::Remove(a) => p(&cps(a)), Act::Edit(a, b) => p(&cps(a)) && p(&cps(b)) }
 }
+fn distinct(keys: impl Iterator<Item = String>) -> bool { let mut seen = std::collections::BTreeSet::new(); keys.into_iter().all(|k| seen.insert(k)) }
+/// `Diff.WF`: keys unique at every level of a diff
+fn diff_keys_unique(d: &Sexp) -> bool {
+	let cs = items(&items(d)[2]);
+	distinct(cs.iter().map(|c| key_of(Lv::Class, items(c)))) && cs.iter().all(|c| { let c = items(c);
+		distinct(items(&c[3]).iter().map(|f| key_of(Lv::Field, items(f)))) && distinct(items(&c[4]).iter().map(|m| key_of(Lv::Method, items(m))))
+			&& items(&c[4]).iter().all(|m| distinct(items(&items(m)[4]).iter().map(|p| key_of(Lv::Param, items(p))))) })
+}
+/// `KeysUnique`: keys unique at every level of a mapping set
+fn keys_unique(m: &Sexp) -> bool {
+	let cs = items(&items(m)[2]);
+	distinct(cs.iter().map(|c| key_of(Lv::Class, items(c)))) && cs.iter().all(|c| { let c = items(c);
+		distinct(items(&c[3]).iter().map(|f| key_of(Lv::Field, items(f)))) && distinct(items(&c[4]).iter().map(|m| key_of(Lv::Method, items(m))))
+			&& items(&c[4]).iter().all(|m| distinct(items(&items(m)[5]).iter().map(|p| key_of(Lv::Param, items(p))))) })
+}
+/// top-level comment unchanged: `None` or `Edit(a, a)`
+fn same_or_none(a: &Sexp) -> bool { match act(a) { Act::None => true, Act::Edit(x, y) => x == y, _ => false } }
 fn writable(d: &Sexp) -> bool {
-	let d = items(d);
+	let dd = items(d);
 	let name = |valid: fn(&[u32]) -> bool| move |s: &[u32]| valid(s) && plain_cell(s);
-	d[0] == Sexp::tag("none") && d[1] == Sexp::tag("none") && items(&d[2]).iter().all(|c| {
+	dd[0] == Sexp::tag("none") && same_or_none(&dd[1]) && diff_keys_unique(d) && items(&dd[2]).iter().all(|c| {
 		let c = items(c);
 		name(valid_class)(&cps(&c[0])) && action_all(&c[1], &name(valid_class)) && action_all(&c[2], &plain_doc)
 			&& items(&c[3]).iter().all(|f| { let f = items(f);
@@ -596,6 +621,13 @@ fn writable(d: &Sexp) -> bool {
 				name(valid_method)(&cps(&m[0])) && plain_cell(&cps(&m[1])) && action_all(&m[2], &name(valid_method)) && action_all(&m[3], &plain_doc)
 					&& items(&m[4]).iter().all(|p| { let p = items(p); action_all(&p[1], &name(valid_unq)) && action_all(&p[2], &plain_doc) }) })
 	})
+}
+/// every class, field, method and parameter has a name in namespace 1
+fn all_named(m: &Sexp) -> bool {
+	let named = |names: &Sexp| items(names).get(1).is_some_and(|x| *x != none());
+	items(&items(m)[2]).iter().all(|c| { let c = items(c);
+		named(&c[1]) && items(&c[3]).iter().all(|f| named(&items(f)[3]))
+			&& items(&c[4]).iter().all(|m| { let m = items(m); named(&m[3]) && items(&m[5]).iter().all(|p| named(&items(p)[2])) }) })
 }
 
 fn norm_action(a: &Sexp) -> Sexp { match act(a) { Act::Edit(x, y) if x == y => Sexp::tag("none"), _ => a.clone() } }
@@ -659,7 +691,39 @@ fn exec(op: &str, args: &[Sexp]) -> Ans {
 				Err(_) => Ans::fail("unreadable"),
 			}
 		}
-		("oracle-diff-apply" | "oracle-diff-apply-text", [a, b]) => {
+		("oracle-apply-wf" | "oracle-apply-wf-full", [d, t, ns]) => {
+			if !diff_keys_unique(d) || !wf(t) { return Ans::out_of_domain(); }
+			if op == "oracle-apply-wf" {
+				match items(&items(t)[0]).iter().position(|x| x == ns) { None | Some(0) => return Ans::out_of_domain(), _ => {} }
+			}
+			let nss = tr!(ns.as_string());
+			let Ok(r) = tr!(apply_real(d, t, &nss)) else { return Ans::out_of_domain() };
+			if wf(&r) { Ans::pass() } else { Ans::fail("not_wf") }
+		}
+		("oracle-diff-total", [a, b]) => {
+			if tr!(mapcodec::ns_count(a)) != 2 || tr!(mapcodec::ns_count(b)) != 2 { return Ans::out_of_domain(); }
+			if !keys_unique(a) || !keys_unique(b) { return Ans::out_of_domain(); }
+			let ma: M<2> = tr!(from_sexp(a));
+			let mb: M<2> = tr!(from_sexp(b));
+			let expect = items(a)[0] == items(b)[0] && all_named(a) && all_named(b);
+			match (MappingsDiff::diff(&ma, &mb).is_ok(), expect) {
+				(x, y) if x == y => Ans::pass(),
+				(true, _) => Ans::fail("succeeds_outside_domain"),
+				_ => Ans::fail("fails_inside_domain"),
+			}
+		}
+		("oracle-apply-read-back", [d, t, ns]) => {
+			if !diff_keys_unique(d) || !keys_unique(t) { return Ans::out_of_domain(); }
+			let dd = items(d);
+			if dd[0] != Sexp::tag("none") || !same_or_none(&dd[1]) { return Ans::out_of_domain(); }
+			let nss = tr!(ns.as_string());
+			let Ok(r) = tr!(apply_real(d, t, &nss)) else { return Ans::out_of_domain() };
+			match tr!(apply_real(&norm_diff(d), t, &nss)) {
+				Err(()) => Ans::fail("refused_after_text"),
+				Ok(r2) => if canon_mappings(&r2) == canon_mappings(&r) { Ans::pass() } else { Ans::fail("differs") },
+			}
+		}
+		("oracle-diff-apply" | "oracle-diff-apply-text" | "oracle-diff-apply-full", [a, b]) => {
 			if tr!(mapcodec::ns_count(a)) != 2 || tr!(mapcodec::ns_count(b)) != 2 { return Ans::out_of_domain(); }
 			if !wf(a) || !wf(b) { return Ans::out_of_domain(); }
 			let ma: M<2> = tr!(from_sexp(a));
@@ -667,7 +731,7 @@ fn exec(op: &str, args: &[Sexp]) -> Ans {
 			let Ok(d) = MappingsDiff::diff(&ma, &mb) else { return Ans::out_of_domain() };
 			let nss = items(&items(a)[0]);
 			if nss[0] == nss[1] { return Ans::out_of_domain(); }
-			if !param_srcless(a, b) { return Ans::out_of_domain(); }
+			if op != "oracle-diff-apply-full" && !param_srcless(a, b) { return Ans::out_of_domain(); }
 			let ns = tr!(nss[1].as_string());
 			let d = if op == "oracle-diff-apply-text" {
 				let ds = diff_to(&d);
